@@ -577,7 +577,8 @@ class DoIPConnection:
     async def read_frame_unsafe(self) -> DoIPFrame:
         # Avoid waiting on the queue forever when
         # the connection has been terminated.
-        if self._is_closed:
+        # Frames which were received before that are still delivered.
+        if self._is_closed and self._read_queue.empty():
             raise ConnectionError
         frame = await self._read_queue.get()
         if frame is None:
